@@ -237,15 +237,18 @@ theorem shiftNegative_error_definite (o : Opts) (ls rs : Bool) (lv rv : List Val
     · split at hr
       · rename_i v hv
         obtain ⟨hm, himp, hi, hle, _⟩ := getValueLE_spec hv
-        simp at hr; subst hr
-        have hcd : v.cond = false ∧ v.defaultArg = false := by
-          cases hc : v.cond <;> cases hd : v.defaultArg <;> simp_all [sevOf, Value.errorSeverity]
-        exact ⟨v, hm, ⟨hcd.1, hcd.2, by intro hk; simp [Value.isImpossible, hk] at himp⟩, hi, hle⟩
+        by_cases hen : isEnabled o v false = true
+        · simp [hen] at hr; subst hr
+          have hcd : v.cond = false ∧ v.defaultArg = false := by
+            cases hc : v.cond <;> cases hd : v.defaultArg <;> simp_all [sevOf, Value.errorSeverity]
+          exact ⟨v, hm, ⟨hcd.1, hcd.2, by intro hk; simp [Value.isImpossible, hk] at himp⟩, hi, hle⟩
+        · simp [hen] at hr
       · simp at hr
     · simp at hr
 
 example : (shiftNegative allOn true true [] [sampleValue .possible (-1) true]) = [⟨"shiftNegative", .warning, .normal⟩] ∧
-    (shiftNegative allOn true true [] [sampleValue .known (-1) false]) = [⟨"shiftNegative", .error, .normal⟩] := by decide
+    (shiftNegative allOn true true [] [sampleValue .known (-1) false]) = [⟨"shiftNegative", .error, .normal⟩] ∧
+    (shiftNegative allOff true true [] [{ sampleValue .possible (-1) false with defaultArg := true }]) = [] := by decide
 
 /-- regression (F04a, repaired by 4fa5b48): negativeBitwiseShiftError as it was found graded `error` on a list that holds nothing
     but a value hanging on a condition -/
